@@ -1027,6 +1027,54 @@ VDRIVE_OP(trimtrace)
 	return res;
 }
 
+// ---------------------------------------------------------------- step-level binding of the Layer-2 model Candidate
+// {"op":"candtrace","A"}: runs GetCandidateTree with the step hook installed; returns Start (with the operand), the Pop events of
+// its own loop (the nested RemoveUnreachableStates is dropped: the model takes it as a function) and Result.
+VDRIVE_OP(candtrace)
+{
+	Alpha alpha;
+	if (c.contains("syms")) { alpha.RegisterAll(c["syms"]); }
+	TA a = MakeTA(c.at("A"), alpha); ShareIfAsked(a, c);
+	std::vector<std::string> events;
+	g_stepSink = &events;
+	VATA::Util::Verif::Sink() = stepSink;
+	TA r;
+	try { r = a.GetCandidateTree(); }
+	catch (...) { VATA::Util::Verif::Sink() = nullptr; g_stepSink = nullptr; throw; }
+	VATA::Util::Verif::Sink() = nullptr;
+	g_stepSink = nullptr;
+	json evs = json::array();
+	json start;
+	start["e"] = "Start";
+	start["A"] = ReadTA(a, alpha);
+	evs.push_back(start);
+	for (const std::string& s : events)
+	{
+		json e = json::parse(s);
+		if (e.value("mode", "") != "candidate") { continue; }
+		if (e.at("e") == "Pop")
+		{
+			e["q"] = StOut(e["q"].get<size_t>());
+			e["ord"] = json::array();
+			evs.push_back(e);
+		}
+		else if (e.at("e") == "Visit" && evs.size() > 1)
+		{	// the rule looked at, folded into the Pop it belongs to
+			json r = e.at("r");
+			json kids = json::array();
+			for (const json& k : r.at(1)) { kids.push_back(StOut(k.get<size_t>())); }
+			evs.back()["ord"].push_back(json::array({alpha.Name(r.at(0).get<size_t>()), kids, StOut(r.at(2).get<size_t>())}));
+		}
+	}
+	json done;
+	done["e"] = "Result";
+	done["R"] = ReadTA(r, alpha);
+	evs.push_back(done);
+	json res;
+	res["events"] = evs;
+	return res;
+}
+
 // ---------------------------------------------------------------- step-level binding of the Layer-2 model Product
 // {"op":"isecttrace","A","B","bu":bool}: runs Intersection / IntersectionBU with the step hook installed; returns Start (with
 // the operands), a synthetic Begin, the Pop events (the state pair taken from the work list) and Result (automaton + product map).
